@@ -155,6 +155,19 @@ def _contains_union(T):
     return False
 
 
+def _option_index_undefined(rest):
+    """An index array with missing values is defined by the model when it stands alone or comes last after plain
+    integers and range slices (each selected list is then indexed by it, None giving None); next to other index
+    arrays, newaxis or ellipsis the library itself documents the combination as unsupported."""
+    if not any(isinstance(x, list) for x in rest):
+        return False
+    if len([x for x in rest if x is not None]) == 1:
+        return False
+    if not isinstance(rest[-1], list):
+        return True
+    return not all(isinstance(x, (int, np.integer, slice)) and not isinstance(x, bool) for x in rest[:-1])
+
+
 def getitem(T, tvs, items):
     """items: tuple of int | slice | Ellipsis | None(newaxis) | Field | Fields | numpy int/bool array |
     list with None (option index array) | Jagged."""
@@ -172,7 +185,7 @@ def getitem(T, tvs, items):
         return strip(v)
     if _contains_union(T):
         raise Skip("positional slicing through a union")
-    if any(isinstance(x, list) for x in rest) and len([x for x in rest if x is not None]) > 1:
+    if _option_index_undefined(rest):
         raise Skip("option-type index array combined with other index items (the library calls several of these undefined)")
     lo, hi = array_depth(T)
     # ellipsis expansion
@@ -203,7 +216,7 @@ def getitem(T, tvs, items):
             expanded.append(x)
     adv_pos = [k for k, x in enumerate(expanded)
                if isinstance(x, np.ndarray) or (isinstance(x, tuple) and x[0] == "bool") or isinstance(x, list)]
-    if any(isinstance(x, list) for x in rest) and len([x for x in rest if x is not None]) > 1:
+    if _option_index_undefined(rest):
         raise Skip("option-type index array combined with other index items (the library calls several of these undefined)")
     nadv = 0
     anyempty = False
